@@ -12,11 +12,12 @@ PROPS = {
     "C13": {
         "coq_dir": "C13",
         "harness": "c13",
-        "cases": {"quick": 1500, "thorough": 40000},
+        "cases": {"quick": 3000, "thorough": 40000},
         "consts": ["REQUEST_TIMEOUT_SECS"],
         "nontrivial_min_trace": 40,
-        "rule": "seeded random histories (3-45 stimuli quick, 5-120 thorough) over <=4 peers, in four styles (outbound-, dial-, inbound-heavy, "
-                "uniform): send_request with Dial/Reject, cancel_request, send_response/reject_request, ConnectionEstablished (also with a "
+        "rule": "seeded random histories (3-50 stimuli quick, 5-120 thorough) over <=4 peers; 45% dialogue-shaped (the generator tracks a rough "
+                "estimate of connections, open commands, carriers and waiting inbound requests so that most stimuli hit), the rest in four "
+                "random styles (outbound-, dial-, inbound-heavy, uniform): send_request with Dial/Reject, cancel_request, send_response/send_response_with_feedback/reject_request, ConnectionEstablished (also with a "
                 "dead command channel)/ConnectionClosed/DialFailure/SubstreamOpened/SubstreamOpenFailure in any order, carriers that block, "
                 "accept or fail writes, remote responses/EOF/reset, clock advances across the request timeout, inbound substreams with and "
                 "without a bound (also several request frames on one inbound substream), payload lengths {0,1,2,7,max-1,max,max+1}; the real RequestResponseProtocol over a real TransportService is "
@@ -44,10 +45,11 @@ PROPS = {
         "level_note": "The unrepaired code violated the property (F-C13a: a second request to a peer that is still being dialed overwrote "
                       "pending_dials[peer]; the first request never got an outcome; C13_unrepaired_refuted) - repaired by a fix: commit, "
                       "witness kept in corpus/C13. Not modelled: fallback protocol names (would need a hook parameter), "
-                      "send_response_with_feedback, a full event/command channel parking the loop (.await inside handlers), partial frames "
+                      "a full event/command channel parking the loop (.await inside handlers), partial frames "
                       "(C04), a DialPeer command silently refused by the manager (F-C05c: then a dial stays outstanding forever and the "
-                      "quiescence premise never holds). Not a theorem (oracle-checked only): the frame written on the carrier bound to rid "
-                      "is byte-identical to the request given to send_request.",
+                      "quiescence premise never holds). Not theorems (modelled, diffed and oracle-checked only): the frame written on the carrier bound "
+                      "to rid is byte-identical to the request given to send_request; the feedback of send_response_with_feedback is () only when the "
+                      "response frame went out.",
         "assumptions": ["request ids come from the shared allocator (send_request/try_send_request), never chosen by the user",
                         "quiescence (no pending dial, no substream being opened, no request future in flight) is a premise of exactly-one: every dial is eventually answered by ConnectionEstablished or DialFailure, every open_substream by SubstreamOpened or SubstreamOpenFailure, every future ends (response, EOF, timeout)",
                         "HashMap/FuturesUnordered iteration order is not observable (events of one step and dumps are sorted)"],
